@@ -21,7 +21,17 @@ pub fn hval(args: &[&str]) -> Option<Vec<String>> {
 pub fn hname(args: &[&str]) -> Option<Vec<String>> {
     let b = unhex(args.first()?)?;
     let Ok(s) = String::from_utf8(b) else { return Some(vec!["notutf8".into()]) };
-    Some(vec![if HeaderName::new_from_ascii(s).is_ok() { "ok".into() } else { "err".into() }])
+    let ok = HeaderName::new_from_ascii(s.clone()).is_ok();
+    // the const constructor (it panics on an invalid name) must draw the same line
+    let leaked: &'static str = Box::leak(s.into_boxed_str());
+    let prev = std::panic::take_hook();
+    std::panic::set_hook(Box::new(|_| {}));
+    let const_ok = std::panic::catch_unwind(|| HeaderName::new_from_ascii_str(leaked)).is_ok();
+    std::panic::set_hook(prev);
+    if const_ok != ok {
+        return Some(vec![format!("ctor-differs:new_from_ascii_str:{const_ok}")]);
+    }
+    Some(vec![if ok { "ok".into() } else { "err".into() }])
 }
 
 /// `hdrs <op;op;…>` with ops `i:<name>:<raw>` (insert_raw of HeaderValue::new), `r:<name>`
